@@ -36,8 +36,7 @@ pub fn get_grammar_hash(src: RustSrcRef) -> Option<&str> {
             return None;
         }
 
-        if line.starts_with(HASH_PREFIX) {
-            let hash = line.trim_start_matches(HASH_PREFIX);
+        if let Some(hash) = line.strip_prefix(HASH_PREFIX) {
             return Some(hash);
         }
     }
